@@ -1,5 +1,6 @@
 import PyecoreModel.Lemmas.Commands
 import PyecoreModel.Lemmas.StoreStep
+import PyecoreModel.Lemmas.CommandsInverse
 /-!
 # C06 — Undo restores the previous model state; redo restores the next one  (**partial**)
 
@@ -11,7 +12,13 @@ discards the undone commands.
 Proved here, for all inputs: (1) the stack discipline — truncation of the redo tail, the cursor invariant, undo
 followed by redo is the identity on the stack whenever the command's own undo/redo are inverse at that state;
 (2) the inverse laws of Add / Remove / Move on the collection they act on, for every index (negative, out of range)
-— the index conventions are where the unrepaired code was wrong; (3) every command keeps the C01/C02 invariants.
+— the index conventions are where the unrepaired code was wrong; (3) every command keeps the C01/C02 invariants;
+(4) **the whole-model law** for `Set`/`Add`/`Remove`/`Move` on every feature *without an opposite* (attributes,
+plain references, containments) whose value is not taken away from another owner — `C06_inverse`: undo gives back the
+very Store state (every slot, container, resource membership of every object), redo the state after the command;
+`C06_stack_inverse`: the same through `CommandStack`; `C06_k_undo_redo`: for every word of such commands, k undos bring
+back the state the word started from and k redos the state and stack after it; `C06_good_reachable` /
+`C06_good_exec`: the invariants these need hold in every reachable state (`Lemmas/CommandsInverse.lean`).
 **Not proved**: the whole-model inverse law for references *with an opposite* — it is false of the code as it is
 (the owner is re-appended on the other end; recorded finding F-C06-1, mirrored by the model and visible in
 `C06_counterexample_opposite_order`) — and `Delete`/`Compound`, which the model does not contain; those are decided
@@ -198,5 +205,81 @@ theorem C06_counterexample_opposite_order :
     let r1 := cstep exMM6 {} s0 (.exec (.set 2 1 (.obj 1)))
     let r2 := cstep exMM6 r1.1 r1.2.1 .undo
     s0.rs 0 0 = [2, 3] ∧ r2.2.1.rs 0 0 = [3, 2] := by decide
+
+end Store
+
+/-! ### The whole-model inverse law (features without an opposite) -/
+namespace Store
+open Py
+
+/-- every reachable state satisfies what the law needs: the shape of attribute slots, the C01/C02 invariants, C03 -/
+theorem C06_good_reachable (mm : MM) (hwf : mm.WF) (hwft : mm.WFT) (ops : List Op) (hops : ∀ op ∈ ops, ArityOK mm op) :
+    Good mm (run mm ops) :=
+  ⟨ashape_run mm hwft ops hops, inv_run mm hwf ops, typed_run mm hwf hwft ops⟩
+
+/-- … and so does every state a command leads to -/
+theorem C06_good_exec (mm : MM) (hwf : mm.WF) (hwft : mm.WFT) (s : St) (h : Good mm s) (sp : Spec) (c : Cmd)
+    (hprep : prepare mm s sp = .ok c) : Good mm (c.exec mm s).1 :=
+  good_exec mm hwf hwft s h c (prepare_arity mm s sp c hprep)
+
+/-- **Undo restores the previous model state; redo restores the next one** — as equalities of whole Store states (every
+    attribute and reference slot, container, resource membership of every object), for `Set`, `Add`, `Remove`, `Move`
+    on any feature without an opposite, with any value, index (negative, out of range) or form (by value, by index),
+    provided the command does not take its value away from another owner. -/
+theorem C06_inverse (mm : MM) (hwf : mm.WF) (s : St) (hg : Good mm s) (sp : Spec) (hcov : Covered mm s sp)
+    (c : Cmd) (hprep : prepare mm s sp = .ok c) (r : Option PyVal) (hex : (c.exec mm s).2 = .ok r) :
+    (∃ r', (c.after mm s).undo mm (c.exec mm s).1 = (s, .ok r')) ∧ (c.after mm s).redo mm s = c.exec mm s :=
+  covered_inverse mm hwf s hg sp hcov c hprep r hex
+
+/-- the same through the stack: execute, undo, redo all report success; the state after undo is the state before the
+    command, the state and the stack after redo are those after the command -/
+theorem C06_stack_inverse (mm : MM) (hwf : mm.WF) (cs : CStack) (s : St) (hok : cs.OK) (hg : Good mm s) (sp : Spec)
+    (hcov : Covered mm s sp) (h1 : (cstep mm cs s (.exec sp)).2.2 = "ok") :
+    let r1 := cstep mm cs s (.exec sp)
+    let r2 := cstep mm r1.1 r1.2.1 .undo
+    let r3 := cstep mm r2.1 r2.2.1 .redo
+    r2.2.2 = "ok" ∧ r2.2.1 = s ∧ r2.1 = { r1.1 with n := cs.n } ∧ r3.2.2 = "ok" ∧ r3.2.1 = r1.2.1 ∧ r3.1 = r1.1 :=
+  stack_roundtrip mm cs s hok sp (fun c r hp he => covered_inverse mm hwf s hg sp hcov c hp r he) h1
+
+/-- **k undos followed by k redos is the identity** (and the k undos are the inverse of the k commands): for every word
+    of covered commands that all execute, from every state satisfying the invariants and every stack. -/
+theorem C06_k_undo_redo (mm : MM) (hwf : mm.WF) (hwft : mm.WFT) (sps : List Spec) (cs : CStack) (s : St)
+    (hok : cs.OK) (hg : Good mm s) (hcov : coveredL mm (cs, s) sps) (hall : okL mm (cs, s) (sps.map .exec)) :
+    okL mm (runL mm (cs, s) (sps.map .exec)) (List.replicate sps.length .undo) ∧
+    runL mm (runL mm (cs, s) (sps.map .exec)) (List.replicate sps.length .undo)
+      = ({ (runL mm (cs, s) (sps.map .exec)).1 with n := cs.n }, s) ∧
+    okL mm ({ (runL mm (cs, s) (sps.map .exec)).1 with n := cs.n }, s) (List.replicate sps.length .redo) ∧
+    runL mm ({ (runL mm (cs, s) (sps.map .exec)).1 with n := cs.n }, s) (List.replicate sps.length .redo)
+      = runL mm (cs, s) (sps.map .exec) :=
+  (k_undo_redo mm hwf hwft sps cs s hok hg hcov hall).2.2
+
+/-! non-vacuity: a metamodel with an attribute collection, a plain reference and a containment; a word over all three -/
+
+/-- f0 : containment, many.  f1 : plain reference, single.  f2 : list-like EInt attribute. -/
+def exMM6b : MM :=
+  { feat := fun f => if f = 0 then { many := true, cont := true }
+                     else if f = 1 then { }
+                     else { isRef := false, many := true, unique := false, tdt := "EInt" }
+    nFeat := 3, sub := fun c t => c == t, abstr := fun _ => false, nCls := 1 }
+
+theorem exMM6b_wf : exMM6b.WF := by
+  refine ⟨?_, ?_, ?_, ?_, ?_⟩ <;> intro f <;> simp only [exMM6b] <;> (repeat' split) <;> simp_all
+
+theorem exMM6b_wft : exMM6b.WFT := by
+  refine ⟨?_, ?_, ?_⟩ <;> intro f <;> simp only [exMM6b] <;> (repeat' split) <;> simp_all
+
+def exOps6b : List Op := [.new 0, .new 0, .new 0, .add 0 2 (.int 1), .add 0 2 (.int 2)]
+def exWord6b : List Spec :=
+  [.add 0 2 (.int 3) (some 99), .add 0 0 (.obj 1) none, .set 0 1 (.obj 2), .move 0 2 (some (-1)) (-7) none,
+   .add 0 0 (.obj 2) (some 0), .remove 0 0 (some (.obj 1)) none]
+
+example : (∀ op ∈ exOps6b, ArityOK exMM6b op) ∧ okL exMM6b ({}, run exMM6b exOps6b) (exWord6b.map .exec) ∧
+    coveredL exMM6b ({}, run exMM6b exOps6b) exWord6b ∧
+    (run exMM6b exOps6b).rs 0 0 = [] ∧ (runL exMM6b ({}, run exMM6b exOps6b) (exWord6b.map .exec)).2.rs 0 0 = [2] ∧
+    (runL exMM6b ({}, run exMM6b exOps6b) (exWord6b.map .exec)).2.as 0 2 = [.int 3, .int 1, .int 2] := by
+  refine ⟨?_, by decide, coveredL_of_B _ _ _ (by decide), by decide, by decide, by decide⟩
+  intro op hop
+  simp only [exOps6b, List.mem_cons, List.mem_nil_iff, or_false] at hop
+  rcases hop with rfl | rfl | rfl | rfl | rfl <;> simp [ArityOK, exMM6b]
 
 end Store
